@@ -41,6 +41,14 @@ type rwFrame struct {
 	more bool
 	code byte // error frames
 	at   time.Time
+	head []byte // the first bytes of the payload (engine respopts: which responder wrote the frame)
+}
+
+func rwHead(p []byte) []byte {
+	if len(p) > 240 {
+		p = p[:240]
+	}
+	return append([]byte(nil), p...)
 }
 
 func (f rwFrame) kind() int64 { // encoding of Model/RespWire.v kind_code
@@ -107,7 +115,7 @@ func (r *rwConn) readLoop() {
 		now := time.Now()
 		switch f.Type {
 		case 0x04, 0x14:
-			fr := rwFrame{typ: f.Type, at: now}
+			fr := rwFrame{typ: f.Type, at: now, head: rwHead(f.Payload)}
 			if len(f.Payload) > 0 {
 				fr.more = f.Payload[0]&1 == 1
 			}
@@ -116,7 +124,7 @@ func (r *rwConn) readLoop() {
 			r.nAll++
 			r.mu.Unlock()
 		case 0xff:
-			fr := rwFrame{typ: 0xff, at: now}
+			fr := rwFrame{typ: 0xff, at: now, head: rwHead(f.Payload)}
 			if len(f.Payload) > 0 {
 				fr.code = f.Payload[0]
 			}
